@@ -248,6 +248,111 @@ pub fn check_with(case: &Case, all_cuts_up_to: usize) -> CaseResult {
     r
 }
 
+/// One very long line (field value, ACK message or greeting-like text) inside an otherwise small
+/// response: lengths on a logarithmic scale up to 4 MiB, read boundaries within a few bytes of the
+/// line's ends.
+#[derive(Debug, Clone, Serialize, Deserialize)]
+pub struct LongLine {
+    /// log2 of the base length (12..=22)
+    pub log2: u8,
+    /// added to 2^log2 (-16..=16)
+    pub delta: i8,
+    /// 0 field value, 1 ACK message text, 2 field value in the second frame of a command list
+    pub kind: u8,
+    pub key_len: u8,
+    /// offsets of read boundaries before the end of the long line (LF = 0)
+    pub back: Vec<u8>,
+    pub fill: u8,
+}
+
+pub fn check_long_line(case: &LongLine) -> CaseResult {
+    let mut r = CaseResult::new();
+    let len = ((1usize << case.log2) as i64 + case.delta as i64).max(1) as usize;
+    let fill = if case.fill.is_ascii_graphic() { case.fill } else { b'v' };
+    let key: String = "Comment".chars().cycle().take(case.key_len.max(1) as usize).collect();
+    let mut stream = Vec::with_capacity(len + 64);
+    let line_end; // offset of the LF that ends the long line
+    match case.kind {
+        1 => {
+            stream.extend_from_slice(b"a: b\nACK [50@0] {add} ");
+            stream.resize(stream.len() + len, fill);
+            line_end = stream.len();
+            stream.extend_from_slice(b"\n");
+        }
+        2 => {
+            stream.extend_from_slice(b"a: b\nlist_OK\n");
+            stream.extend_from_slice(key.as_bytes());
+            stream.extend_from_slice(b": ");
+            stream.resize(stream.len() + len, fill);
+            line_end = stream.len();
+            stream.extend_from_slice(b"\nlist_OK\nOK\n");
+        }
+        _ => {
+            stream.extend_from_slice(b"a: b\n");
+            stream.extend_from_slice(key.as_bytes());
+            stream.extend_from_slice(b": ");
+            stream.resize(stream.len() + len, fill);
+            line_end = stream.len();
+            stream.extend_from_slice(b"\nc: d\nOK\n");
+        }
+    }
+    stream.extend_from_slice(b"z: y\nOK\n");
+    r.nontrivial();
+    r.class(match case.log2 {
+        0..=15 => "line_up_to_64KiB",
+        16..=19 => "line_64KiB_to_1MiB",
+        _ => "line_1MiB_and_more",
+    });
+    let reference = run(Flavour::Blocking, GREETING, &stream, &Seg::Whole, 0);
+    let mut execs = 1;
+    // the reference itself must be the two responses (the long line is well-formed)
+    if reference.responses.len() != 2 || reference.terminal != Terminal::CleanEof {
+        r.fail(format!("a well-formed stream with one line of {len} bytes: {}", brief(&reference)));
+        return r;
+    }
+    let mut segs = vec![Seg::Chunk(60_000), Seg::Chunk(4096)];
+    for b in &case.back {
+        segs.push(Seg::Cuts(vec![line_end.saturating_sub(*b as usize)]));
+    }
+    segs.push(Seg::Cuts(case.back.iter().map(|b| line_end.saturating_sub(*b as usize)).collect()));
+    for seg in &segs {
+        for fl in [Flavour::Blocking, Flavour::Async] {
+            if fl == Flavour::Blocking && *seg == Seg::Whole {
+                continue;
+            }
+            let obs = run(fl, GREETING, &stream, seg, 0);
+            execs += 1;
+            if let Some(d) = diff(&reference, &obs) {
+                let d: String = d.chars().take(300).collect();
+                r.fail(format!("line of {len} bytes ending at {line_end}, {fl:?} under {seg:?} differs from blocking/whole: {d} [{} | {}]", brief(&reference), brief(&obs)));
+                r.execs = execs;
+                return r;
+            }
+        }
+    }
+    let obs = run(Flavour::Async, GREETING, &stream, &Seg::Whole, 0);
+    execs += 1;
+    if let Some(d) = diff(&reference, &obs) {
+        let d: String = d.chars().take(300).collect();
+        r.fail(format!("line of {len} bytes, async/whole differs from blocking/whole: {d}"));
+    }
+    r.execs = execs;
+    r
+}
+
+fn long_line_strategy(tier: Tier) -> BoxedStrategy<LongLine> {
+    (
+        12..=tier.pick(21u8, 22u8),
+        prop_oneof![2 => -16..=16i8, 1 => Just(0i8)],
+        prop_oneof![3 => Just(0u8), 1 => Just(1), 1 => Just(2)],
+        1..40u8,
+        prop::collection::vec(prop_oneof![3 => 0..12u8, 1 => any::<u8>()], 1..5usize),
+        any::<u8>(),
+    )
+        .prop_map(|(log2, delta, kind, key_len, back, fill)| LongLine { log2, delta, kind, key_len, back, fill })
+        .boxed()
+}
+
 fn strategy(tier: Tier) -> BoxedStrategy<Case> {
     let max_payload = tier.pick(24_000, 40_000);
     (
@@ -274,6 +379,12 @@ pub fn property(tier: Tier) -> Property {
             cases: (2_000, 100_000),
             strategy: Box::new(strategy),
             check: Box::new(move |c| check_with(c, limit)),
+        }), Box::new(RandomPart {
+            name: "long_lines",
+            rule: "proptest: a small response containing ONE line (field value with a 1-39 byte key, ACK message text, or a value in the second frame of a command list) of 2^k + d bytes, k in 12..=21 (thorough 22, i.e. 4 KiB .. 4 MiB), d in -16..=16, followed by a second response; read boundaries 0-11 (sometimes up to 255) bytes before the line's end, singly and together, plus 60000-byte and 4096-byte chunks and whole x {blocking, async}; blocking/whole must deliver both responses and every other run must equal it. non-trivial = every case",
+            cases: (320, 20_000),
+            strategy: Box::new(long_line_strategy),
+            check: Box::new(check_long_line),
         }), crate::fuzzops::corpus_part("fuzz_corpus", "fz_stream", "C02", crate::fuzzops::stream_target)],
         assumptions: vec!["outcomes are compared through public accessors (frames, fields, binary, error fields, terminal outcome)"],
         selftest: None,
